@@ -2,11 +2,24 @@
    sense of HtmlSpec.wf_node (all line segments inside the source, heading levels 1..6, HTML
    closure lines and fence info inside the source), the lines of its inline-bearing blocks
    satisfy the block reader's hypothesis, and the reference map holds byte strings.
-   For all tables, regular expressions and label normalisations. *)
-Require Import GM.model.Base GM.model.Util GM.model.Reader GM.model.ReaderSpec GM.model.Blocks GM.model.ListItem
+   For all punctuation tables, regular expressions, label normalisations and allowed tags, and for
+   every white space table that classifies the blank (byte 32) as white space (hypothesis sp32:
+   the virtual padding of a line consists of blanks, and the proof needs them to be white space);
+   the hypothesis is discharged by computation for the table regenerated from the code in the
+   corollaries at the end, which have no hypothesis besides bytes_ok.
+
+   The proof lives in the helper files ParseBlocksRange{A..P}.v:
+     A reader along successful runs; B heap of block nodes and the invariant (heapS, Jinv, Bnd,
+     openS, SInv); C Open of the ten block parsers; D, F Continue; G, H, I Close (paragraph, code,
+     fenced code; setext heading; list); J transformParagraph / link reference definitions;
+     K to_tree; E regrouping the lists of the invariant; L closeBlocks; M, N openBlocks;
+     P the loop over the opened blocks, the outer loops, the final invariant. *)
+Require Import GM.model.Base GM.model.Util GM.model.UtilI GM.model.Reader GM.model.ReaderSpec GM.model.Blocks GM.model.ListItem
                GM.model.LeafBlocks GM.model.CodeBlock GM.model.LinkDest GM.model.Regex GM.model.HtmlWriter
-               GM.model.Html GM.model.HtmlSpec GM.model.BlockParse GM.model.InlineParse.
+               GM.model.Html GM.model.HtmlSpec GM.model.BlockParse GM.model.InlineParse GM.model.ParseI.
+Require Import GM.gen.Tables GM.gen.Regexes.
 Require Import GM.proofs.MiscProofs GM.proofs.ReaderProofs GM.proofs.BReaderProofs GM.proofs.BlockRangeProofs GM.proofs.ParseInv.
+Require Import GM.proofs.ParseBlocksRangeB GM.proofs.ParseBlocksRangeK GM.proofs.ParseBlocksRangeP.
 From Coq Require Import ZArith Lia.
 Open Scope Z_scope.
 
@@ -16,11 +29,52 @@ Variable norm : bytes -> bytes.
 Variable re_t1o re_t1c re_t2 re_t3 re_t4 re_t5 re_t6 re_t7 : re.
 Variable allowed_tags : list bytes.
 Notation PB := (parse_blocks space_table punct_table norm re_t1o re_t1c re_t2 re_t3 re_t4 re_t5 re_t6 re_t7 allowed_tags).
+(* the white space table classifies the blank as white space *)
+Hypothesis sp32 : is_space space_table 32%N = true.
 
-Theorem parse_blocks_tree_ok : forall src s t,
+(* The statement of the skeleton, which had no hypothesis about the white space table:
+
+   Theorem parse_blocks_tree_ok : forall src s t,
+     bytes_ok src -> PB src = Ok s ->
+     to_tree (S (length (s_h s))) src (s_h s) 0%nat = Ok t ->
+     wf_node src false false t = true /\ tree_lines_ok src t = true /\ refs_ok (c_refs (s_c s)).
+
+   It is proved here under the section hypothesis sp32. *)
+Theorem parse_blocks_tree_ok_sp : forall src s t,
   bytes_ok src -> PB src = Ok s ->
   to_tree (S (length (s_h s))) src (s_h s) 0%nat = Ok t ->
   wf_node src false false t = true /\ tree_lines_ok src t = true /\ refs_ok (c_refs (s_c s)).
-Proof. Admitted.
+Proof.
+  intros src s t Hsrc Hpb Ht.
+  destruct (parse_blocks_final space_table punct_table norm re_t1o re_t1c re_t2 re_t3 re_t4 re_t5 re_t6 re_t7 allowed_tags
+              src sp32 Hsrc s Hpb) as [HhS [HJ Hr]].
+  destruct (to_tree_ok space_table punct_table norm re_t1o re_t1c re_t2 re_t3 re_t4 re_t5 re_t6 re_t7 allowed_tags
+              src sp32 Hsrc (s_h s) HhS HJ _ 0%nat t (or_introl eq_refl) Ht) as [Hwf Hl].
+  auto.
+Qed.
 
 End S.
+
+(* the white space table regenerated from the code classifies the blank as white space *)
+Lemma space_table_blank : is_space space_table 32%N = true.
+Proof. vm_compute. reflexivity. Qed.
+
+(* the block phase with the tables and regular expressions regenerated from the code: the statement
+   of the skeleton, instantiated (this is the hypothesis blocks_ok of ParseCompose.v) *)
+Corollary ParseBlocks_tree_ok : forall src s t,
+  bytes_ok src -> ParseBlocks src = Ok s ->
+  to_tree (S (length (s_h s))) src (s_h s) 0%nat = Ok t ->
+  wf_node src false false t = true /\ tree_lines_ok src t = true /\ refs_ok (c_refs (s_c s)).
+Proof.
+  intros src s t. unfold ParseBlocks. apply parse_blocks_tree_ok_sp. exact space_table_blank.
+Qed.
+
+Corollary ParseBlocksTree_ok : forall src t refs,
+  bytes_ok src -> ParseBlocksTree src = Ok (t, refs) ->
+  wf_node src false false t = true /\ tree_lines_ok src t = true /\ refs_ok refs.
+Proof.
+  intros src t refs Hsrc H. unfold ParseBlocksTree in H.
+  destruct (ParseBlocks src) as [s| |] eqn:Es; cbn [bind] in H; try discriminate.
+  destruct (to_tree (S (length (s_h s))) src (s_h s) 0%nat) as [t'| |] eqn:Et; cbn [bind] in H; try discriminate.
+  injection H as <- <-. exact (ParseBlocks_tree_ok src s t' Hsrc Es Et).
+Qed.
